@@ -205,7 +205,12 @@ open Lean in
       let m := env.header.moduleNames[idx.toNat]!
       if mods.contains m then
         match ci with
-        | .thmInfo _ => if !n.isInternal then names := names.push n
+        | .thmInfo _ =>
+          -- skip compiler-generated equation / unfolding lemmas (`f.eq_1`, `f.eq_def`, …): they are not obligations
+          let auto := match n with
+            | .str _ s => s.startsWith "eq_" || s.startsWith "match_" || s == "sizeOf_spec" || s.endsWith "_eq_1"
+            | _ => false
+          if !n.isInternal && !auto then names := names.push n
         | _ => pure ()
     | none => pure ()
   for n in names.qsort (fun a b => a.toString < b.toString) do
